@@ -595,6 +595,10 @@ func panicString(r interface{}) string {
 	}
 	var sb strings.Builder
 	fmt.Fprintf(&sb, "%v", r)
+	if fa, ok := r.(interface{ Addr() uintptr }); ok && fa.Addr() >= 4096 {
+		// a memory fault turned into a panic by debug.SetPanicOnFault (guard.go), not a nil dereference
+		fmt.Fprintf(&sb, " [memory fault: unexpected fault address 0x%x]", fa.Addr())
+	}
 	if _, ok := r.(runtime.Error); ok {
 		// first frames that are inside rjson, for the report
 		pcs := make([]uintptr, 32)
